@@ -7,6 +7,7 @@ package main
 import (
 	"bytes"
 	"encoding/binary"
+	"encoding/json"
 	"fmt"
 	"os"
 	"reflect"
@@ -236,6 +237,14 @@ func init() {
 			}
 		}
 		var tables, prevCase *locCase
+		reused0200, custom0200 := &model.T0x0200{}, &model.T0x0200{}
+		custom0200.T0x0200AdditionDetails.CustomAdditionContentFunc = func(id uint8, content []byte) (model.AdditionContent, bool) {
+			return model.AdditionContent{}, false
+		}
+		var prev0200 locCase
+		primer0200 := append(bytes.Repeat([]byte{0xff}, 8), []byte{1, 2, 3, 4, 5, 6, 7, 8, 0, 9, 0, 10, 0, 11, 0x24, 0x10, 0x01, 0x23, 0x59, 0x59,
+			0x01, 4, 0, 0, 0, 9, 0x02, 2, 0, 7, 0x25, 4, 0xff, 0xff, 0xff, 0xff, 0x2a, 2, 0xff, 0xff, 0x30, 1, 9, 0xe1, 2, 7, 7}...)
+		reused0801 := &model.T0x0801{}
 		err := readND(a[0], func(i int, raw []byte) error {
 			var c locCase
 			if err := jsonUnmarshal(raw, &c); err != nil {
@@ -257,6 +266,28 @@ func init() {
 				put("0x0200 parse-panic", p, c)
 				return nil
 			}
+			// carrier 1b: a long-lived receiver that has parsed every earlier body (handlers are reused), and a receiver whose
+			// custom item function is registered but declines every item: both read this body exactly like the fresh default
+			// receiver above (which is compared with the specification below)
+			// (the reused receiver has just read a body with every alarm and status bit set and several items: the most there is to forget)
+			protect(func() { reused0200.Parse(jtBody(primer0200)) })
+			for vi, recv := range []*model.T0x0200{reused0200, custom0200} {
+				var e2 error
+				who := []string{"0x0200 reused-receiver", "0x0200 custom-item-function-declining"}[vi]
+				if p := protect(func() { e2 = recv.Parse(jtBody(c.Body)) }); p != "" || (e2 == nil) != (err == nil) {
+					put(who+fmt.Sprintf(" accept-differs fresh-ok=%v", err == nil), fmt.Sprint(p, e2), []locCase{prev0200, c})
+					continue
+				}
+				if err != nil {
+					continue
+				}
+				j1, _ := json.Marshal([]any{t.T0x0200LocationItem, t.T0x0200AdditionDetails.Additions})
+				j2, _ := json.Marshal([]any{recv.T0x0200LocationItem, recv.T0x0200AdditionDetails.Additions})
+				if !bytes.Equal(j1, j2) {
+					put(who+" reads-differently", diffWindow(string(j1), string(j2)), []locCase{prev0200, c})
+				}
+			}
+			prev0200 = c
 			if (err == nil) != c.R.Ok {
 				// which item made the difference?
 				put(fmt.Sprintf("0x0200 accept-differs spec-ok=%v", c.R.Ok), fmt.Sprintf("body %x: impl err=%v", []byte(c.Body), err), c)
@@ -347,6 +378,18 @@ func init() {
 			}
 			if f, d := cmpBase(c.R, t8.T0x0200LocationItem); f != "" {
 				put("0x0801 "+f, d, c)
+			}
+			// ... and as the service delivers a reassembled upload: under the header of the package that arrived last
+			m8 := jtBody(b801)
+			m8.Header.Property.PacketFragmented = 1
+			m8.Header.SubPackageSum, m8.Header.SubPackageNo = 3, uint16(2+n%2)
+			protect(func() {
+				reused0801.Parse(jtBody(append(append([]byte{0, 0, 0, 9, 0, 0, 1, 2}, primer0200[:28]...), 0xff, 0xd8)))
+			})
+			if p := protect(func() { err = reused0801.Parse(m8) }); p != "" || err != nil {
+				put("0x0801 under-sub-package-header not-parsed", fmt.Sprint(p, err), c)
+			} else if f, d := cmpBase(c.R, reused0801.T0x0200LocationItem); f != "" {
+				put("0x0801 under-sub-package-header "+f, d, c)
 			}
 			return nil
 		})
